@@ -26,7 +26,7 @@ FLOAT_EDGES = [0x0000000000000000, 0x8000000000000000, 0x3ff0000000000000, 0xbff
                0x3fe0000000000000, 0xbfe0000000000000, 0x3fefffffffffffff, 0x0000000000000001,
                0x4059000000000000, 0x4024000000000000, 0x3fb999999999999a, 0x40f86a0000000000,
                0x4170000010000000,  # 16777217.0
-               ]
+               ] + [0x420bf08eb0000000, 0x3df12e0be826d695, 0xc443a6b2b564871a, 0x3bcd83c94fb6d2ac, 0x54b249ad2594c37d, 0x54d0007780e22b0d, 0x4202a05f20000000, 0x3ea0c6f7a0b5ed8d, 0x44dfc3842bd1f072, 0x4415af1d78b58c40, 0x442043561a882930, 0x419d6f3454000000, 0x3f50624dd2f1a9fc, 0x3ee4f8b588e368f1, 0x430c6bf526340000, 0x4341c37937e08000, 0x4376345785d8a000, 0x4480f0cf064dd592, 0x44b52d02c7e14af6, 0x4023000000000000, 0x4025000000000000, 0x3fe0000000000000, 0x4004000000000000, 0x4c2fdca16e04b86d, 0x4c63e9e4e4c2f344, 0xcc37e57912838a52, 0x7fefffffffffffff, 0x0010000000000000, 0x0000000000000001, 0x4340000000000000, 0x3fb999999999999a, 0x3fd3333333333334, 0x4059000000000000, 0x412e848000000000, 0x416312d000000000]
 STRINGS = [b"", b"x", b"hello", b"a\"b\\c", b"\n\t\r\f", b"\x01\x1f\x7f\x80\xff", b"a" * 63, b"b" * 64,
            b"c" * 65, b"semi;colon", b"#//*"]
 
@@ -153,6 +153,11 @@ def rand_value(rng, k):
     if k == "b":
         return str(rng.choice([0, 1, 1, 0, 2, -1]))
     if k == "f":
+        if rng.random() < 0.35:
+            while True:
+                b = rng.getrandbits(64)
+                if (b >> 52) & 0x7ff != 0x7ff:      # finite
+                    return fbits(b)
         return fbits(rng.choice(FLOAT_EDGES))
     s = rng.choice(STRINGS) if rng.random() < 0.8 else bytes(rng.randint(1, 255) for _ in range(rng.randint(0, 130)))
     return "-" if rng.random() < 0.08 else hx(s)
